@@ -92,7 +92,20 @@ def parseDPol (ws : List String) : Option DPol := do
             let lo ← kvInt ws "lo"
             let hi ← kvInt ws "hi"
             pure (DKind.retry att lo hi)
-          else if kind == "oauth" || kind == "apikey" || kind == "basic" || kind == "acct" then pure DKind.other
+          else if kind == "oauth" then pure DKind.oauth
+          else if kind == "basic" then pure DKind.other
+          else if kind == "acct" then
+            match kv ws "hname" with
+            | none => pure (DKind.acct "x-acct-token" ["t1"])
+            | some hn => do
+              let hv ← kv ws "hvals"
+              pure (DKind.acct (pctDec hn) ((hv.splitOn ",").map pctDec))
+          else if kind == "apikey" then
+            match kv ws "hname" with
+            | none => pure (DKind.apikey "x-api-key" "k1")
+            | some hn => do
+              let hv ← kv ws "hvalue"
+              pure (DKind.apikey (pctDec hn) (pctDec hv))
           else if kind == "fixed" then do
             let st ← kvInt ws "status"
             pure (DKind.fixed st)
@@ -103,10 +116,19 @@ def parseDPol (ws : List String) : Option DPol := do
           else none
   pure { ep := ep, name := pctDec name, enabled := enabled != 0, kind := k }
 
-def fmtDispatch : DAns → String
-  | .pass => "pass"
+/-- header names a remedy was explicitly told to set (`hname=`): reported when the gateway sets them -/
+def watchOf (ws : List String) : List String := ((kv ws "hname").map pctDec).toList
+
+def fmtDispatch (watch : List String) (outs : List (String × String)) : DAns → String
+  | .pass =>
+    let items := ((outs.filter fun o => watch.contains o.1).map fun o => pctEnc o.1 ++ "&" ++ pctEnc o.2).mergeSort
+      (fun a b => !(b < a))
+    if items.isEmpty then "pass" else "pass out=" ++ ";".intercalate items
   | .early s b => s!"early {s} body={pctEnc b}"
   | .err => "err:dispatch"
+
+def parseOuts (s : String) : Option (List (String × String)) :=
+  (s.splitOn ";").mapM fun item => (splitAmp item).map fun (n, v) => (pctDec n, pctDec v)
 
 structure Tbl where
   remedies : List (Nat × Remedy) := []
@@ -136,7 +158,8 @@ structure RunSt where
   started : Bool := false    -- an op of this case was already seen (`wiring` must be the first)
   dpols : List DPol := []    -- dispatcher family: configured policies (in order)
   dloaded : Bool := false    -- … a configuration was accepted and is in force
-  dst : DState := {}         -- … its own rate-limit state and response cache (services.Initialize per `dload`)
+  dst : DState := {}         -- … its own rate-limit state / round-robin counter (services.Initialize per `dload`)
+  dwatch : List String := [] -- … header names whose outgoing value is reported
 
 def parseWiring (ws : List String) : Option Bool :=
   match kv ws "hasher" with
@@ -153,7 +176,7 @@ def runStep1 (s : RunSt) (line : String) : RunSt × String :=
     | _, _ => (s, "bad-op")
   | "dpol" :: ws =>
     match parseDPol ws with
-    | some p => ({ s with dpols := s.dpols ++ [p] }, "ok")
+    | some p => ({ s with dpols := s.dpols ++ [p], dwatch := s.dwatch ++ watchOf ws }, "ok")
     | none => (s, "bad-op")
   | ["dload"] =>
     if accepted s.dpols then ({ s with dloaded := true, dst := {} }, "ok")
@@ -162,8 +185,8 @@ def runStep1 (s : RunSt) (line : String) : RunSt × String :=
     match kv ws "url", kv ws "method", kvNat ws "t", parseHdrs (kvAll ws "h") with
     | some u, some m, some t, some hs =>
       if !s.dloaded then (s, "no-config") else
-      let (st', a) := dispatchStep capUnits s.dst s.dpols (pctDec u) m hs t
-      ({ s with dst := st' }, fmtDispatch a)
+      let (st', a, outs) := dispatchStep capUnits s.dst s.dpols (pctDec u) m hs t
+      ({ s with dst := st' }, fmtDispatch s.dwatch outs a)
     | _, _, _, _ => (s, "bad-op")
   | "remedy" :: ws =>
     match parseRemedy ws with
@@ -240,6 +263,7 @@ structure JudgeSt where
   dloaded : Bool := false
   dhist : List (Event PKey) := []   -- dispatcher family, most recent first
   dskip : Bool := false             -- a request ran two throttling remedies: verdicts not attributable
+  dAcctIdx : Nat := 0               -- round-robin position of the account-orchestration plugin (configuration only)
 
 def parseAnswer (out : String) : Option Answer :=
   match (words out).filter (fun w => !w.startsWith "reads=") with
@@ -262,7 +286,7 @@ def judgeStep1 (s : JudgeSt) (op out : String) : JudgeSt :=
   | ["dload"] =>
     -- the IMPLEMENTATION's verdict on the configuration decides whether requests are judged: if it accepts two
     -- policies with one name, every policy must still keep its own count
-    { s with dloaded := out == "ok", dhist := [] }
+    { s with dloaded := out == "ok", dhist := [], dAcctIdx := 0 }
   | "dreq" :: ws =>
     match kv ws "url", kv ws "method", kvNat ws "t", parseHdrs (kvAll ws "h") with
     | some u, some m, some t, some hs =>
@@ -273,8 +297,27 @@ def judgeStep1 (s : JudgeSt) (op out : String) : JudgeSt :=
       -- remedies of the chain that may answer in the throttling remedy's place
       let fixedFires := ch.any (fun p => match p.kind with
         | .fixed _ => lookupHdr hs "early-response" == "true" | _ => false)
+      -- what leaves the gateway: the headers it reports to have set on the forwarded request
+      let outs : List (String × String) := match words out with
+        | ["pass", o] => if o.startsWith "out=" then (parseOuts (o.drop 4).toString).getD [] else []
+        | _ => []
+      -- the throttling remedy groups by the request as the EARLIER remedies of the chain left it: for the headers
+      -- they set, the value that actually leaves the gateway
+      -- (a rejection does not show them: there the configuration's own value is taken — the judge keeps the
+      --  account-orchestration round-robin position, which depends on the configuration and the request count only)
+      let isThrottle (p : DPol) : Bool := (remedyOf p).isSome
+      let computedBefore :=
+        outsOf capUnits url m t (ch.takeWhile (fun p => !isThrottle p)) ⟨[], s.dAcctIdx⟩ hs []
+      let (jst, _) := runChain capUnits url m t ch ⟨[], s.dAcctIdx⟩ hs .pass
+      let s := { s with dAcctIdx := jst.acctIdx }
+      let before := settersBefore ch
+      let hs := hs ++ (computedBefore.filter (fun o => before.contains o.1)).map fun o =>
+        match outs.find? (fun r => r.1 == o.1) with
+        | some r => r
+        | none => o
       let ans : Option DAns := match words out with
         | ["pass"] => some .pass
+        | ["pass", o] => if o.startsWith "out=" && (parseOuts (o.drop 4).toString).isSome then some .pass else none
         | ["early", st, b] =>
           if b.startsWith "body=" then st.toInt?.map (fun c => DAns.early c (pctDec (b.drop 5).toString)) else none
         | _ => none
